@@ -25,11 +25,13 @@
 (***************************************************************************)
 EXTENDS DiskImage, Integers, Json, IOUtils, TLCExt
 
-CONSTANT TombLogOn
+CONSTANTS TombLogOn,
+          FifoOrder,      \* BOOLEAN: one flusher, default pickers, no deletes, no restart: blocks are reclaimed oldest-filled first (C09)
+          ReinsertKeys    \* keys the reinsertion filter admits (C09)
 
-VARIABLES img, tpages, stored, last, acked, written, l, bad
+VARIABLES img, tpages, stored, last, acked, written, fillOrder, laterDel, l, bad
 
-tvars == <<img, tpages, stored, last, acked, written, l, bad>>
+tvars == <<img, tpages, stored, last, acked, written, fillOrder, laterDel, l, bad>>
 
 Rec == ndJsonDeserialize(IOEnv.TRACE)
 
@@ -62,12 +64,13 @@ ProbeBad(im, tp, res) ==
           r == res[i]
           exp == Lookup(im, ix, k) IN
       (IF r # 0 /\ (r >= 1000000 \/ r \notin stored[k]) THEN {<<"C04", "value_never_stored_for_key", k>>} ELSE {})
-      \* the acknowledged-version clause speaks of keys whose LATEST write or delete was acknowledged (a newer,
-      \* not yet acknowledged operation may or may not have reached the device); keys sharing their hash
-      \* with another key are C17's subject (the disk tier holds one of them)
-      \cup (IF acked[k] = last[k] /\ ~Collides(k) /\ acked[k].kind = "ins" /\ (r = 0 \/ r < acked[k].n)
+      \* an acknowledged write is never lost: the key reads as the acknowledged version or as the outcome of an
+      \* operation submitted after the acknowledgement (a newer version; a miss only if a delete was submitted
+      \* since - it may or may not have reached the device); keys sharing their hash with another key are C17's
+      \* subject (the disk tier holds one of them)
+      \cup (IF ~Collides(k) /\ acked[k].kind = "ins" /\ r >= 0 /\ r < acked[k].n /\ ~(r = 0 /\ laterDel[k])
             THEN {<<"C04", "acked_write_lost_or_older", k>>} ELSE {})
-      \cup (IF acked[k] = last[k] /\ ~Collides(k) /\ TombLogOn /\ acked[k].kind = "del" /\ r # 0 /\ r < acked[k].n
+      \cup (IF ~Collides(k) /\ TombLogOn /\ acked[k].kind = "del" /\ r > 0 /\ r < acked[k].n
             THEN {<<"C04", "acked_delete_resurrected", k>>} ELSE {})
       \cup (IF r # exp THEN {<<"drift", "recovery_result", k>>} ELSE {})
       : i \in 1 .. Len(KeySeq) }
@@ -75,6 +78,7 @@ ProbeBad(im, tp, res) ==
 TraceInit ==
     /\ img = Img0 /\ tpages = <<>> /\ stored = [k \in Keys |-> {}]
     /\ last = [k \in Keys |-> NoOp] /\ acked = [k \in Keys |-> NoOp] /\ written = {}
+    /\ fillOrder = <<>> /\ laterDel = [k \in Keys |-> FALSE]
     /\ l = 1 /\ bad = {}
 
 TraceNext ==
@@ -83,17 +87,25 @@ TraceNext ==
        CASE e.a = "init" ->
               /\ img' = Img0 /\ tpages' = <<>> /\ stored' = [k \in Keys |-> {}]
               /\ last' = [k \in Keys |-> NoOp] /\ acked' = [k \in Keys |-> NoOp] /\ written' = {} /\ bad' = {}
+              /\ fillOrder' = <<>>
+              /\ laterDel' = [k \in Keys |-> FALSE]
          [] e.a = "sub" ->
               /\ stored' = [stored EXCEPT ![e.k] = @ \cup {e.v}]
               /\ last' = [last EXCEPT ![e.k] = [kind |-> "ins", n |-> e.v]]
               /\ UNCHANGED <<img, tpages, acked, written>> /\ bad' = {}
+              /\ UNCHANGED fillOrder
+              /\ UNCHANGED laterDel
          [] e.a = "del" ->
               \* n = the next version number: anything newer than the delete has a version >= n
               /\ last' = [last EXCEPT ![e.k] = [kind |-> "del", n |-> e.n]]
               /\ UNCHANGED <<img, tpages, stored, acked, written>> /\ bad' = {}
+              /\ UNCHANGED fillOrder
+              /\ laterDel' = [laterDel EXCEPT ![e.k] = TRUE]
          [] e.a = "ack" ->
               /\ acked' = last
               /\ UNCHANGED <<img, tpages, stored, last, written>> /\ bad' = {}
+              /\ UNCHANGED fillOrder
+              /\ laterDel' = [k \in Keys |-> FALSE]
          [] e.a = "w" ->
               LET ps == Pages(e.ps)
                   isIndex == Len(ps) = 1 /\ ps[1].t = "idx" IN
@@ -104,16 +116,25 @@ TraceNext ==
                      ELSE {})
               /\ bad' = (IF e.o + Len(ps) > BP THEN {<<"C07", "write_crosses_block_end">>} ELSE {})
                         \cup (IF ~isIndex /\ \E j \in 1 .. Len(ps) : e.o + j - 1 < BP /\ Live(img, e.b, e.o + j - 1)
-                              THEN {<<"C07", "write_over_live_entry">>} ELSE {})
+                              THEN {<<"C07", "write_over_live_entry">>, <<"C09", "block_rewritten_while_backing_entries">>} ELSE {})
               /\ UNCHANGED <<tpages, stored, last, acked>>
+              /\ fillOrder' = IF (Len(Pages(e.ps)) # 1 \/ Pages(e.ps)[1].t # "idx") /\ ~\E i \in DOMAIN fillOrder : fillOrder[i] = e.b
+                              THEN Append(fillOrder, e.b) ELSE fillOrder
+              /\ UNCHANGED laterDel
          [] e.a = "tw" ->
               /\ tpages' = [p \in (DOMAIN tpages) \cup {e.p} |-> IF p = e.p THEN e.ts ELSE tpages[p]]
               /\ UNCHANGED <<img, stored, last, acked, written>> /\ bad' = {}
+              /\ UNCHANGED fillOrder
+              /\ UNCHANGED laterDel
          [] e.a = "clean" ->
               \* a block was reclaimed: its first page zeroed (the ack rule then no longer applies to its keys)
               /\ img' = WritePages(img, e.b, 0, <<Zero>>)
               /\ written' = {x \in written : x.b # e.b}
-              /\ UNCHANGED <<tpages, stored, last, acked>> /\ bad' = {}
+              /\ UNCHANGED <<tpages, stored, last, acked>>
+              /\ bad' = IF FifoOrder /\ fillOrder # <<>> /\ Head(fillOrder) # e.b
+                        THEN {<<"C09", "not_oldest_filled_block_reclaimed", e.b>>} ELSE {}
+              /\ fillOrder' = SelectSeq(fillOrder, LAMBDA x : x # e.b)
+              /\ UNCHANGED laterDel
          [] e.a = "q" ->
               LET ix == Rebuild(img, IF TombLogOn THEN Tombs(tpages) ELSE {})
                   sc == ConcatScans(img, BlockSeq(Blocks))
@@ -124,6 +145,14 @@ TraceNext ==
                             (IF e.res[i] # 0 /\ e.res[i] \notin stored[k] THEN {<<"C07", "load_returns_unstored_value", k>>} ELSE {})
                             \cup (IF e.claimed[i] = 1 /\ e.res[i] = 0 /\ Lookup(img, ix, k) # 0
                                   THEN {<<"C07", "claimed_key_not_loadable", k>>} ELSE {})
+                            \* C09: whatever was reclaimed meanwhile, a key whose latest insert was acknowledged reads as
+                            \* that version or as a miss; a key the reinsertion filter admits survives
+                            \cup (IF e.res[i] # 0 /\ acked[k] = last[k] /\ acked[k].kind = "ins" /\ ~Collides(k)
+                                     /\ e.res[i] \in stored[k] /\ e.res[i] # acked[k].n
+                                  THEN {<<"C09", "older_version_after_reclaim", k>>} ELSE {})
+                            \cup (IF e.res[i] # 0 /\ e.res[i] \notin stored[k] THEN {<<"C09", "damaged_entry_surfaced", k>>} ELSE {})
+                            \cup (IF k \in ReinsertKeys /\ acked[k] = last[k] /\ acked[k].kind = "ins" /\ e.res[i] = 0
+                                  THEN {<<"C09", "reinserted_entry_lost", k>>} ELSE {})
                             \* right after a restart the live index is exactly what the scanner and recovery rebuilt
                             \cup (IF e.res[i] # Lookup(img, ix, k)
                                   THEN {<<IF e.reopened THEN "C07" ELSE "drift",
@@ -131,9 +160,13 @@ TraceNext ==
                                   ELSE {})
                             : i \in 1 .. Len(KeySeq) }
               /\ UNCHANGED <<img, tpages, stored, last, acked, written>>
+              /\ UNCHANGED fillOrder
+              /\ UNCHANGED laterDel
          [] e.a = "probe" ->
               /\ bad' = ProbeBad(img, tpages, e.res)
               /\ UNCHANGED <<img, tpages, stored, last, acked, written>>
+              /\ UNCHANGED fillOrder
+              /\ UNCHANGED laterDel
          [] e.a = "fprobe" ->
               \* C03: a fault was applied to a copy of the image (the harness re-classified the pages of every
               \* block it touched, and the tombstone page if that was hit); the copy was opened and every key
@@ -153,10 +186,14 @@ TraceNext ==
                     \cup (IF r >= 0 /\ r # Lookup(im, ix, k) THEN {<<"drift", "lookup_under_fault", k>>} ELSE {})
                     : i \in 1 .. Len(KeySeq) }
               /\ UNCHANGED <<img, tpages, stored, last, acked, written>>
+              /\ UNCHANGED fillOrder
+              /\ UNCHANGED laterDel
          [] e.a = "tprobe" ->
               \* the first pages of the next block write reached the device before the crash
               /\ bad' = ProbeBad(WritePages(img, e.b, e.o, Pages(e.ps)), tpages, e.res)
               /\ UNCHANGED <<img, tpages, stored, last, acked, written>>
+              /\ UNCHANGED fillOrder
+              /\ UNCHANGED laterDel
     /\ l' = l + 1
 
 TraceSpec == TraceInit /\ [][TraceNext]_tvars
@@ -165,6 +202,7 @@ NoViolation(P) == \A b \in bad : b[1] # P
 NoViolation_C03 == NoViolation("C03")
 NoViolation_C04 == NoViolation("C04")
 NoViolation_C07 == NoViolation("C07")
+NoViolation_C09 == NoViolation("C09")
 NoDrift == \A b \in bad : b[1] # "drift"
 
 Consumed ==
